@@ -1,4 +1,5 @@
 import RModel.Driver.State
+import RModel.Impl.Iter
 /-! Iteration protocols of the 32-bit bitmap (property C04).
 
 An iterator is a CURSOR over a snapshot of the enumerated set:
@@ -68,6 +69,32 @@ def mkIter (st : St) (kind i x got : String) : St × Verdict :=
   | none => skipV st got
   | some s => (setIter st i { kind := kind, snap := s, cur := if kind == "rev" then U32 else 0 }, expect "ok" got)
 
+/-- the output `ok <repr32(x)>` of `l2it` / `l2reinit`: the representation parses and abstracts to the model state of `x` -/
+def okRepr (s : BSet) (got : String) : Verdict :=
+  match got.splitOn " " with
+  | ["ok", rs] =>
+    match RModel.Impl.parseRep rs with
+    | some r => if r.toBSetFast != s then some ("ok <repr of the set " ++ digest s ++ ">") else none
+    | none => some "ok <parsable repr>"
+  | _ => some "ok <repr>"
+
+/-- `l2it <fwd|rev|many> i x`: `it` / `rit` / `mit` that also prints the raw representation -/
+def mkIterL2 (st : St) (kind i x got : String) : St × Verdict :=
+  match st.bm[x]? with
+  | none => skipV st got
+  | some s =>
+    if kind != "fwd" && kind != "rev" && kind != "many" then skipV st got else
+    (setIter st i { kind := kind, snap := s, cur := if kind == "rev" then U32 else 0 }, okRepr s got)
+
+/-- `l2reinit i x`: `reinit` (kinds fwd / rev / many) that also prints the raw representation -/
+def reinitL2 (st : St) (i x got : String) : St × Verdict :=
+  withIter st i got fun it =>
+    match st.bm[x]? with
+    | none => skipV st got
+    | some s =>
+      if it.kind == "unset" then skipV st got
+      else (setIter st i { it with snap := s, cur := if it.kind == "rev" then U32 else 0 }, okRepr s got)
+
 def seqCmd (st : St) (c x k got : String) : St × Verdict :=
   match st.bm[x]?, kArg? k with
   | some s, some kk =>
@@ -91,6 +118,8 @@ def stepIter (st : St) (cmd : List String) (got : String) : Option (St × Verdic
   | ["it", i, x] => some (mkIter st "fwd" i x got)
   | ["rit", i, x] => some (mkIter st "rev" i x got)
   | ["mit", i, x] => some (mkIter st "many" i x got)
+  | ["l2it", kind, i, x] => some (mkIterL2 st kind i x got)
+  | ["l2reinit", i, x] => some (reinitL2 st i x got)
   | ["uit", i, x, a, b] =>
     match st.bm[x]?, nat? a, nat? b with
     | some s, some lo, some hi =>
@@ -187,5 +216,187 @@ def stepIter (st : St) (cmd : List String) (got : String) : Option (St × Verdic
       else some (st, expect (seqExpect "unset" (BSet.restrict (BSet.compl U32 s) lo hi) kk) got)
     | _, _, _, _ => some (skipV st got)
   | _ => none
+
+/-! ## L2 shadow: the modelled Go state machines (Impl/Iter.lean) stepped next to the real iterators
+
+An iterator created by `l2it` has, besides its set-level cursor (`St.it`), an L2 state (`St.l2it`): the model of the Go
+struct, initialised from the representation the harness printed.  Every later `hasnext / next? / next! / peek? / peek! /
+adv / advrel / many / manyhs / drain / l2reinit` on that name steps the L2 state and requires
+  (a) the model's answer = the Go answer                      ("L2 iterator model = Go; model: …"),
+  (b) fwd / rev: the model's state after the step agrees with the set-level cursor on `hasNext` (and `peekNext`)
+                                                               ("L2 iterator model = set-level cursor; …").
+(The set-level check of the Go answer itself is `stepIter`'s and takes precedence in the report.)
+`it / rit / mit / uit / reinit` on the name drop the L2 state (no representation known); so does a Go panic. -/
+open RModel.Impl RModel.Impl.It
+
+def l2Msg (m : String) : Verdict := some ("L2 iterator model = Go; model: " ++ m)
+
+def l2Expect (exp got : String) : Verdict := if exp == got then none else l2Msg exp
+
+/-- rendering of a value sequence as `renderVals` (harness) does for a strictly ascending (descending) sequence -/
+def renderL2 (vals : List Nat) (desc : Bool) : String :=
+  let v := if desc then vals.reverse else vals
+  if Cont.toBSetFast.strictIncFast v then countDigest v.length (sortedValsBounds 0 v none [])
+  else "unord " ++ toString v.length
+
+/-- rendering of the result of one `NextMany` call as the `many` / `manyhs` commands do -/
+def renderMany (vals : List Nat) : String :=
+  if Cont.toBSetFast.strictIncFast vals then countDigest vals.length (sortedValsBounds 0 vals none [])
+  else "unsorted"
+
+/-- `drain` of a many-iterator as the harness does it: `NextMany` with buffers of 1000 (or what is left of the limit)
+until a call returns 0 -/
+def drainManyL2 (fuel : Nat) (limit : Option Nat) (ii : ManyIt) (have_ : Nat) : List Nat × ManyIt :=
+  match fuel with
+  | 0 => ([], ii)
+  | fuel + 1 =>
+    let sz := match limit with
+      | none => 1000
+      | some l => min 1000 (l - have_)
+    if limit.isSome && sz == 0 then ([], ii) else
+    let (vs, ii') := ii.nextMany sz
+    if vs.length == 0 then ([], ii') else
+    let (ws, r) := drainManyL2 fuel limit ii' (have_ + vs.length)
+    (vs ++ ws, r)
+
+def drainLimit (rest : List String) : Option (Option Nat) :=
+  match rest with
+  | [] => some none
+  | [l] => match kArg? l with
+    | some k => if k < 0 then some none else some (some k.toNat)
+    | none => none
+  | _ => none
+
+/-- one command on an L2-tracked iterator: (state afterwards — `none`: tracking stops, verdict (a)) -/
+def l2Step (l1 : Option IterSt) (s : L2It) (cmd : List String) (got : String) : Option L2It × Verdict :=
+  if got.startsWith "skip" then (some s, none)
+  else if got.startsWith "panic" then (none, none)
+  else
+  let l1peek : Option Nat := match l1 with | some l => l.peek | none => none
+  match s, cmd with
+  | .fwd it, ["hasnext", _] => (some s, l2Expect (bstr it.hasNext) got)
+  | .rev it, ["hasnext", _] => (some s, l2Expect (bstr it.hasNext) got)
+  | .fwd it, ["next?", _] =>
+    if it.hasNext then let (v, it') := it.next; (some (.fwd it'), l2Expect (toString v) got)
+    else (some s, l2Expect "none" got)
+  | .rev it, ["next?", _] =>
+    if it.hasNext then let (v, it') := it.next; (some (.rev it'), l2Expect (toString v) got)
+    else (some s, l2Expect "none" got)
+  | .fwd it, ["next!", _] =>
+    -- the harness calls Next() without HasNext() exactly when the SET has a next value
+    if l1peek.isNone then (some s, l2Expect "none" got)
+    else if !it.hasNext then (some s, l2Msg "exhausted (hasNext = false) although the set has a next value")
+    else let (v, it') := it.next; (some (.fwd it'), l2Expect (toString v) got)
+  | .rev it, ["next!", _] =>
+    if l1peek.isNone then (some s, l2Expect "none" got)
+    else if !it.hasNext then (some s, l2Msg "exhausted (hasNext = false) although the set has a next value")
+    else let (v, it') := it.next; (some (.rev it'), l2Expect (toString v) got)
+  | .fwd it, ["peek?", _] =>
+    (some s, l2Expect (if it.hasNext then toString it.peekNext else "none") got)
+  | .fwd it, ["peek!", _] =>
+    if l1peek.isNone then (some s, l2Expect "none" got)
+    else if !it.hasNext then (some s, l2Msg "exhausted (hasNext = false) although the set has a next value")
+    else (some s, l2Expect (toString it.peekNext) got)
+  | .fwd it, ["adv", _, m] =>
+    match nat? m with
+    | some mv => if mv ≥ U32 then (some s, none) else (some (.fwd (it.advanceIfNeeded mv)), l2Expect "ok" got)
+    | none => (some s, none)
+  | .fwd it, ["advrel", _, d] =>
+    match d.toInt? with
+    | some dd =>
+      if !it.hasNext then (some s, l2Expect "none" got) else
+      let t : Int := (it.peekNext : Int) + dd
+      let m : Nat := if t < 0 then 0 else min t.toNat (U32 - 1)
+      (some (.fwd (it.advanceIfNeeded m)), l2Expect ("ok " ++ toString m) got)
+    | none => (some s, none)
+  | .many it, ["many", _, n] =>
+    match nat? n with
+    | some nn =>
+      if nn > 16777216 then (some s, none) else
+      let (vs, it') := it.nextMany nn
+      (some (.many it'), l2Expect (renderMany vs) got)
+    | none => (some s, none)
+  | .many it, ["manyhs", _, n, hs] =>
+    match nat? n, nat? hs with
+    | some nn, some h =>
+      if nn > 16777216 || h % U32 != 0 || h ≥ U64 then (some s, none) else
+      let (vs, it') := it.nextMany64 h nn
+      (some (.many it'), l2Expect (renderMany vs) got)
+    | _, _ => (some s, none)
+  | .fwd it, "drain" :: _ :: rest =>
+    match drainLimit rest with
+    | some lim =>
+      let (vs, it') := it.drain (lim.getD 4294967297)
+      (some (.fwd it'), l2Expect (renderL2 vs false) got)
+    | none => (some s, none)
+  | .rev it, "drain" :: _ :: rest =>
+    match drainLimit rest with
+    | some lim =>
+      let (vs, it') := it.drain (lim.getD 4294967297)
+      (some (.rev it'), l2Expect (renderL2 vs true) got)
+    | none => (some s, none)
+  | .many it, "drain" :: _ :: rest =>
+    match drainLimit rest with
+    | some lim =>
+      let (vs, it') := drainManyL2 4294967297 lim it 0
+      (some (.many it'), l2Expect (renderL2 vs false) got)
+    | none => (some s, none)
+  | _, _ => (some s, none)
+
+/-- check (b): the L2 state agrees with the set-level cursor -/
+def l2Agree (l1 : Option IterSt) (s : L2It) : Verdict :=
+  match l1, s with
+  | some l, .fwd it =>
+    let a : Option Nat := if it.hasNext then some it.peekNext else none
+    if a == l.peek then none
+    else some ("L2 iterator model = set-level cursor; L2 next=" ++ toString a ++ " set-level next=" ++ toString l.peek)
+  | some l, .rev it =>
+    if it.hasNext == l.peek.isSome then none
+    else some ("L2 iterator model = set-level cursor; L2 hasNext=" ++ bstr it.hasNext ++ " set-level next=" ++ toString l.peek)
+  | _, _ => none
+
+def l2Cmds : List String :=
+  ["hasnext", "next?", "next!", "peek?", "peek!", "adv", "advrel", "many", "manyhs", "drain"]
+
+/-- the L2 shadow of one script line; reads the state BEFORE the line, returns the new `l2it` map and the verdict -/
+def shadowIterL2 (st : St) (cmd : List String) (got : String) : Std.HashMap String L2It × Verdict :=
+  let okRep : Option Rep := match got.splitOn " " with
+    | ["ok", rs] => parseRep rs
+    | _ => none
+  match cmd with
+  | ["l2it", kind, i, _] =>
+    if got.startsWith "skip" then (st.l2it, none) else
+    match okRep with
+    | some r =>
+      if kind == "fwd" then (st.l2it.insert i (.fwd (IntIt.create r)), none)
+      else if kind == "rev" then (st.l2it.insert i (.rev (IntRevIt.create r)), none)
+      else if kind == "many" then (st.l2it.insert i (.many (ManyIt.create r)), none)
+      else (st.l2it.erase i, none)
+    | none => (st.l2it.erase i, none)
+  | ["l2reinit", i, _] =>
+    if got.startsWith "skip" then (st.l2it, none) else
+    match st.l2it[i]?, okRep with
+    | some (.fwd it), some r => (st.l2it.insert i (.fwd (it.reinit r)), none)
+    | some (.rev it), some r => (st.l2it.insert i (.rev (it.reinit r)), none)
+    | some (.many it), some r => (st.l2it.insert i (.many (it.reinit r)), none)
+    | _, _ => (st.l2it.erase i, none)
+  | ["it", i, _] | ["rit", i, _] | ["mit", i, _] | ["uit", i, _, _, _] =>
+    if got.startsWith "skip" then (st.l2it, none) else (st.l2it.erase i, none)
+  | "reinit" :: i :: _ =>
+    if got.startsWith "skip" then (st.l2it, none) else (st.l2it.erase i, none)
+  | c :: i :: _ =>
+    if !l2Cmds.contains c then (st.l2it, none) else
+    match st.l2it[i]? with
+    | none => (st.l2it, none)
+    | some s =>
+      let (s', v) := l2Step st.it[i]? s cmd got
+      match s' with
+      | none => (st.l2it.erase i, v)
+      | some s2 =>
+        let l1' : Option IterSt := match stepIter st cmd got with
+          | some (st1, _) => st1.it[i]?
+          | none => none
+        (st.l2it.insert i s2, match v with | some m => some m | none => l2Agree l1' s2)
+  | _ => (st.l2it, none)
 
 end RModel.Driver
